@@ -7,6 +7,7 @@
 import Flamego.Code.GoSem
 import Flamego.Model.Tree
 import Flamego.Model.Router
+import Flamego.Model.Classify
 namespace Flamego.Lib
 open Flamego.GoSem
 
@@ -25,5 +26,9 @@ def Leaf_Route (l : Leaf) : Bytes := l.route.render
 theorems are Props/C12's) -/
 def Leaf_URLPath (l : Leaf) (vals : List (Bytes × Bytes)) (withOptional : Bool) : Bytes :=
   Flamego.urlPath l.route vals withOptional
+
+/-- `strconv.Atoi` as leaf.go uses it for `capture:` — the reading of Model/Classify.lean (`atoiGo`); the error is ignored by
+the caller -/
+def route_Atoi (s : Bytes) : Int × Err := (Flamego.atoiGo s, 0)
 
 end Flamego.Lib
